@@ -24,8 +24,8 @@ def ob_ltf(W, sched, part, bound=12):
     return SC.ob_ltf(W, sched, part, bound)
 
 
-def ob_vec(W, part):
-    return SC.ob_vec(W, part)
+def ob_vec(W, part, fork_ifs=False, prior=False):
+    return SC.ob_vec(W, part, fork_ifs, prior)
 
 
 def ob_new(W, part):
@@ -50,6 +50,11 @@ def obligations(tier):
         b = 12 if tier == "quick" else 24
         split(obs, "%s/seg-N%d" % (sched, b), "ob_ltf", {"sched": sched, "part": "seg", "bound": b}, GROUPS, timeout=60 if tier == "quick" else 900, weight=10)
     split(obs, "vec/step", "ob_vec", {"part": "step"}, GROUPS, timeout=to, weight=5)
+    # the same step with the walker's branches explored path by path (forking) instead of merged
+    split(obs, "vec/step-forked", "ob_vec", {"part": "step", "fork_ifs": True}, GROUPS[1:], timeout=to, weight=5, fork=True, max_paths=32)
+    # ... and after an earlier plan for another record length in the same process (module-level state must not leak)
+    if tier == "thorough":
+        split(obs, "vec/step-after-prior-plan", "ob_vec", {"part": "step", "fork_ifs": True, "prior": True}, [GROUPS[1], GROUPS[4]], timeout=min(to, 20), weight=6, fork=True, max_paths=48, limit=(300 if tier == "quick" else 1200))
     if tier == "thorough":
         split(obs, "new/step", "ob_new", {"part": "step"}, GROUPS, timeout=to, weight=5)
     else:
